@@ -259,7 +259,7 @@ func (p *parser) parseTrade(r *record) (bool, error) {
 		qty      = r.quantity
 		desc     = fmt.Sprintf("%s %s %s x %s %s %s @ %s %s", r.orderNo, r.trxType, r.quantity, r.symbol.Name(), r.name, r.isin, r.price, r.currency.Name())
 	)
-	if proceeds.IsPositive() {
+	if r.trxType == "Verkauf" {
 		qty = qty.Neg()
 	}
 	p.builder.Add(transaction.Builder{
